@@ -358,10 +358,15 @@ type AssertHint struct {
 	Anchor string
 	Clause *Clause
 	used   bool
+	// ghost assignment (ghostset): Target [Index] = Value instead of an assertion
+	Target string
+	Index  *SExpr
+	Value  *SExpr
 }
 
 type FuncContract struct {
 	Asserts    []*AssertHint
+	GhostVars  []QVar // ghost variables of the function (ghostvar name Type): specification-only state
 	PkgPath    string
 	Key        string // "(*T).M" or "T.M" or "F"
 	Properties []string
@@ -433,7 +438,7 @@ var clauseKeywords = map[string]bool{
 	"func": true, "loop": true, "requires": true, "ensures": true, "invariant": true, "modifies": true,
 	"property": true, "bind": true, "nopanic": true, "assumed": true, "ghost": true, "pure": true,
 	"axiom": true, "lemma": true, "let": true, "decreases": true, "mode": true, "unproved": true,
-	"package": true, "theory": true, "cases": true, "uses": true, "opt": true, "free": true, "end": true, "ghostfield": true, "purefn": true, "assert": true, "typeinv": true,
+	"package": true, "theory": true, "cases": true, "uses": true, "opt": true, "free": true, "end": true, "ghostfield": true, "purefn": true, "assert": true, "typeinv": true, "ghostvar": true, "ghostset": true,
 }
 
 type rawClause struct {
@@ -597,6 +602,56 @@ func (cs *Contracts) parseFile(path string, pkgPath string) error {
 				return err
 			}
 			cur.Asserts = append(cur.Asserts, &AssertHint{When: when, Anchor: anchor, Clause: c})
+		case "ghostvar":
+			// ghostvar name Type : specification-only variable of the function (initially unconstrained)
+			f := strings.Fields(r.text)
+			if cur == nil || len(f) < 2 {
+				return fmt.Errorf("%s:%d: ghostvar needs 'name Type' inside a func contract", path, r.line)
+			}
+			cur.GhostVars = append(cur.GhostVars, QVar{f[0], strings.Join(f[1:], "")})
+		case "ghostset":
+			// ghostset before|after "stmt text": name = expr   |   name[idx] = expr
+			if cur == nil {
+				return fmt.Errorf("%s:%d: ghostset outside func", path, r.line)
+			}
+			t := strings.TrimSpace(r.text)
+			when := ""
+			for _, w := range []string{"before", "after"} {
+				if strings.HasPrefix(t, w+" ") {
+					when = w
+					t = strings.TrimSpace(t[len(w):])
+				}
+			}
+			if when == "" || !strings.HasPrefix(t, "\"") {
+				return fmt.Errorf("%s:%d: ghostset needs before|after \"anchor\": x = expr", path, r.line)
+			}
+			end := strings.Index(t[1:], "\"")
+			if end < 0 {
+				return fmt.Errorf("%s:%d: unterminated anchor", path, r.line)
+			}
+			anchor := t[1 : 1+end]
+			rest := strings.TrimSpace(strings.TrimPrefix(strings.TrimSpace(t[2+end:]), ":"))
+			eq := topLevelAssign(rest)
+			if eq < 0 {
+				return fmt.Errorf("%s:%d: ghostset needs 'x = expr'", path, r.line)
+			}
+			lhs, rhs := strings.TrimSpace(rest[:eq]), strings.TrimSpace(rest[eq+1:])
+			h := &AssertHint{When: when, Anchor: anchor, Clause: &Clause{Kind: "ghostset", Text: rest, File: path, Line: r.line}}
+			if k := strings.Index(lhs, "["); k > 0 && strings.HasSuffix(lhs, "]") {
+				ie, err := parseSpecExpr(lhs[k+1 : len(lhs)-1])
+				if err != nil {
+					return fmt.Errorf("%s:%d: %v", path, r.line, err)
+				}
+				h.Index = ie
+				lhs = strings.TrimSpace(lhs[:k])
+			}
+			h.Target = lhs
+			ve, err := parseSpecExpr(rhs)
+			if err != nil {
+				return fmt.Errorf("%s:%d: %v", path, r.line, err)
+			}
+			h.Value = ve
+			cur.Asserts = append(cur.Asserts, h)
 		case "nopanic":
 			if cur != nil {
 				if strings.TrimSpace(r.text) == "explicit" {
@@ -846,4 +901,30 @@ func loadContracts(repo string, specDir string, modPath string) (*Contracts, err
 		return nil
 	})
 	return cs, err
+}
+
+
+// topLevelAssign: position of the first '=' that is an assignment (not part of ==, <=, >=, !=, ==>) outside brackets
+func topLevelAssign(s string) int {
+	depth := 0
+	for i := 0; i < len(s); i++ {
+		switch s[i] {
+		case '(', '[':
+			depth++
+		case ')', ']':
+			depth--
+		case '=':
+			if depth != 0 {
+				continue
+			}
+			if i+1 < len(s) && s[i+1] == '=' {
+				return -1
+			}
+			if i > 0 && strings.ContainsRune("<>!=", rune(s[i-1])) {
+				return -1
+			}
+			return i
+		}
+	}
+	return -1
 }
